@@ -463,7 +463,17 @@ class Squid:
         return [s for s in self.slots if not s.dead and s.pid is not None]
 
     def alive(self):
-        return self.proc is not None and self.proc.poll() is None
+        if self.proc is None:
+            return False
+        if self.proc.poll() is None and self.slots and not any(not s.dead for s in self.slots):
+            # every control connection is closed: the process is dying (an ASan build takes a moment to
+            # write its report and exit after the socket closes); wait for it so that a crash is attributed
+            # to the case that caused it and not to the next one
+            try:
+                self.proc.wait(timeout=60)
+            except Exception:
+                pass
+        return self.proc.poll() is None
 
     def wait_idle(self, slots=None, watchdog=None):
         """Wait (real time) until the given slots (default: all live) have reported idle."""
